@@ -44,6 +44,7 @@ impl<'a> G<'a> {
         match self.u.below(8) {
             6 => { let u = s.to_ascii_uppercase(); self.out.push_str(&u); }
             7 => { let m: String = s.chars().enumerate().map(|(i, c)| if i % 2 == 0 { c.to_ascii_uppercase() } else { c }).collect(); self.out.push_str(&m); }
+            5 => { let mut m = String::new(); for c in s.chars() { if self.u.coin(1, 2) { m.push(c.to_ascii_uppercase()); } else { m.push(c); } } self.out.push_str(&m); }
             _ => self.out.push_str(s),
         }
     }
@@ -406,7 +407,14 @@ impl<'a> G<'a> {
         // (not directly after a closing quote: 'q'ne would read the n as a name-literal suffix - the lexer's documented suffix rule)
         if wordy && self.out.ends_with(|c: char| c.is_alphanumeric() || c == '_' || c == '\'' || c == '"') { self.p(" "); }
         else if wordy && !self.out.ends_with([' ', '\n', '\t', '/']) { if self.u.coin(2, 3) { self.p(" "); } else { self.feat("mnemonic-glued-left"); } }
-        self.mark(s, MK::Op(t));
+        if wordy {
+            // every letter of a mnemonic in either case
+            let mut sp = String::new();
+            for c in s.chars() { if self.u.coin(1, 3) { sp.push(c.to_ascii_uppercase()); } else if self.u.coin(1, 2) { sp.push(c.to_ascii_lowercase()); } else { sp.push(c); } }
+            self.mark(&sp, MK::Op(t));
+        } else {
+            self.mark(s, MK::Op(t));
+        }
         if s == "&" || (wordy && self.u.coin(3, 4)) { self.p(" "); }
     }
     fn eval_operand(&mut self, float: bool, nonword: bool) -> bool {
